@@ -362,7 +362,7 @@ func c09histories(c *ctx, hs []c09hist) {
 	for i := range all {
 		all[i] = i
 	}
-	runAll(all, 12)
+	runAll(all, vlib.Conc(12))
 	// timeouts are wall-clock dependent: a history that saw one is run again with a generous deadline
 	var again []int
 	for i := range hs {
